@@ -297,6 +297,7 @@ func (box *BoxFields) GetBookmarkLabel() string { return box.BookmarkLabel }
 // Create a new equivalent box (preserving the concrete type) with given [newChildren].
 func CopyWithChildren(box Box, newChildren []Box) Box {
 	newBox := box.Copy()
+	rebindGetCells(newBox)
 	newBox.Box().Children = newChildren
 	// Clear and reset removed decorations as we don't want to keep the
 	// previous data, for example when a box is split between two pages.
@@ -304,9 +305,18 @@ func CopyWithChildren(box Box, newChildren []Box) Box {
 	return newBox
 }
 
+// The default GetCells of a column group is bound to the box it was created for:
+// a copy has to look into its own columns.
+func rebindGetCells(copied Box) {
+	if group, ok := copied.(*TableColumnGroupBox); ok {
+		group.GetCells = group.defaultGetCells
+	}
+}
+
 // Returns a deep copy of `b`, copying b and its descendants.
 func Deepcopy(b Box) Box {
 	new := b.Copy()
+	rebindGetCells(new)
 	newChildren := make([]Box, len(b.Box().Children))
 	for i, c := range b.Box().Children {
 		newChildren[i] = Deepcopy(c)
